@@ -329,3 +329,44 @@ theorem flattenReq_footprint' (c : Scs.Ctx) (r : Scs.Req) (v : Scs.VarLayout)
     exact hne (List.length_eq_zero_iff.mp this)
   exact (elemOffset_agree v _ hx hxne).symm
 end PnVerif.IntraNode
+
+/-! ### flatten_reqs -/
+namespace PnVerif.IntraNode
+open PnVerif.Access
+
+/-- what the request queue guarantees about an entry: vectors as long as the variable's shape,
+    positive counts, element size > 0, and a non-lead request of a record variable lies within one
+    record (the queue splits multi-record requests, `count[0] = 1`) -/
+def PReq.WF (q : PReq) : Prop :=
+  q.start.length = q.count.length ∧ q.start.length = q.stride.length ∧ q.start.length = q.v.shape.length ∧
+  0 < q.v.xsz ∧ (∀ x ∈ q.count, 0 < x) ∧ (q.v.isRec = true → q.v.shape ≠ [] ∧ q.count.headD 0 = 1)
+
+/-- for one request flatten_reqs does what flatten_req does -/
+theorem flattenOne_eq_flattenReq (q : PReq) (h : q.WF) :
+    flattenOne q = flattenReq q.v q.start q.count q.stride := by
+  obtain ⟨h1, h2, h3, _, _, hrec⟩ := h
+  unfold flattenOne flattenReq
+  cases hr : q.v.isRec
+  · simp only [Bool.false_eq_true, if_false]
+    by_cases hd : q.v.shape.length = 0
+    · have hsh : q.v.shape = [] := List.length_eq_zero_iff.mp hd
+      simp [hd, flattenSubarray, hsh]
+    · simp [hd]
+  · obtain ⟨hne, hc1⟩ := hrec hr
+    have hd : ¬ q.v.shape.length = 0 := fun h0 => hne (List.length_eq_zero_iff.mp h0)
+    simp only [if_true, hd, if_false, hc1, recBlocks, List.append_nil]
+
+/-- **flatten_reqs emits exactly the elements of the queued requests, in queue order** -/
+theorem flattenReqs_offsets' (qs : List PReq) (h : ∀ q ∈ qs, q.WF) :
+    qs.flatMap (fun q => expandPairs q.v.xsz (flattenOne q))
+      = qs.flatMap (fun q => (enumIdx q.start q.count q.stride).map (elemOff q.v)) := by
+  induction qs with
+  | nil => rfl
+  | cons q rest ih =>
+    have hw := h q List.mem_cons_self
+    simp only [List.flatMap_cons]
+    rw [ih (fun x hx => h x (List.mem_cons_of_mem _ hx)), flattenOne_eq_flattenReq q hw]
+    obtain ⟨h1, h2, h3, hel, hpos, _⟩ := hw
+    rw [flattenReq_offsets' q.v q.start q.count q.stride h1 h2 h3 hel hpos]
+
+end PnVerif.IntraNode
